@@ -15,14 +15,18 @@ def controls(cprog, cfacts):
     return [k for k in CONTROL_KEYS if k not in keys]
 
 def run(ctx, prog, facts, tier):
-    rules_panic.check_parsers(ctx, prog, ['engine::GameState'], 'C15')
+    PI, _sites = rules_panic.check_parsers(ctx, prog, ['engine::GameState'], 'C15')
     rules_text.check_diagram_tables(ctx, prog)
     rules_text.check_side_letters(ctx, prog)
+    rules_text.check_header(ctx, prog, PI)
+    rules_text.check_parsed_board_consistent(ctx, prog, 'C15', full=(tier != 'quick'))
     rules_hash.check_parser_start_state(ctx, prog)
     ctx.floor('C15 parser panic site kinds (function, construct)', ctx.analysed.get('panic_site_kinds_parser', 0), 9)
     ctx.exhaustive = True
     ctx.assumptions += [
-        'NOT decided: character-position arithmetic of the diagram (odd-index sampling) and hence the full print/parse round trip',
+        'NOT decided: character-position arithmetic of the diagram text itself (odd-index sampling of split segments); decided: '
+        'given the (row, column) the loops deliver, the character lands in bit 8*row + column only (C15.pb), and the header '
+        'language (C15.hdr)',
         'contract table: str::split yields at least one item; Regex::new of the constant pattern succeeds; capture groups not under '
         '?, * or | participate in every match; char::is_uppercase / to_string / fmt / anyhow do not panic',
         'loops over the input text are abstracted by havocking every location they modify (sound for any trip count)']
